@@ -19,6 +19,11 @@ OPT_NOTE = ("optimiser model (coq/model/Optimiser.v) replayed bit-for-bit agains
             "MCOptimiser::optimise_state on scripted and real states")
 
 PROPS = {
+    "C05": dict(props_file="props/C05.v", engines=[("opt", dict(focus="C05", quick=250, thorough=6000))],
+                design="DESIGN.md section 4 C05",
+                assumptions=["libm: exp(-inf) = 0 (premise of the binary64 theorems; tested by the harness on every run)",
+                             "thresholds drawn by rand's gen::<f64>() are >= 0",
+                             "kt_ratio, when given, lies in [0,1] (documented meaning of the option)"]),
     "C06": dict(props_file="props/C06.v", engines=[("opt", dict(focus="C06", quick=250, thorough=6000))],
                 design="DESIGN.md section 4 C06"),
     "C07": dict(props_file="props/C07.v", engines=[("opt", dict(focus="C07", quick=250, thorough=6000))],
